@@ -79,6 +79,59 @@ void harness_reply(void)
 	WITNESS_END();
 }
 
+/* ================================================================== the caller cannot be reached when the owner's reply arrives:
+ * that is the caller's problem, never the owner's (the owner's connection and its other requests are unaffected) */
+void harness_reply_caller_unreachable(void)
+{
+	setup();
+	int v = (int)nd_range(0, 999), w = (int)nd_range(0, 999);
+	int ka = do_set(&A, 7, v);
+	int kc = do_set(&C, 8, v);
+	__CPROVER_assume(ka >= 0 && kc >= 0);
+	failing_peer = &A;                               /* A's send path is full / broken */
+	int r = reply(&O, LOG[ka].id_str, 0, w);
+	failing_peer = 0;
+	CHECK(r >= 0, "C11.undeliverable_answer_does_not_cost_the_owner_its_connection");
+	CHECK(answers_to(&C, 8) == 0, "C03.other_callers_request_still_pending");
+	r = reply(&O, LOG[kc].id_str, 0, w);
+	struct sent *a = answer_to(&C, 8);
+	CHECK(r >= 0 && answers_to(&C, 8) == 1 && a && a->has_result && a->value_int == w, "C03.answer_independent_of_other_callers_send_path");
+	CHECK(timers_alive() == 0, "C07.request_timer_destroyed_after_reply");
+	WITNESS_END();
+}
+
+/* ================================================================== deadline precedence: request > element > configured default */
+void harness_deadline_precedence(void)
+{
+	__CPROVER_assume(element_hashtable_create() == 0);
+	mkpeer(&O, true); mkpeer(&A, true);
+	int v = (int)nd_range(0, 999);
+	scn_build_begin();
+	cJSON *ap = path_params("s", 1);
+#if ELEMENT_TIMEOUT
+	{ cJSON *t = cJSON_CreateNumber(0); t->valuedouble = 2.0; t->valueint = 2; cJSON_AddItemToObject(ap, "timeout", t); }
+#endif
+	cJSON *add = mkreq("add", 1, ap);
+	cJSON *sp = path_params("s", v);
+#if REQUEST_TIMEOUT_MS
+	{ cJSON *t = cJSON_CreateNumber(0); t->valuedouble = REQUEST_TIMEOUT_MS / 1000.0; t->valueint = (int)(REQUEST_TIMEOUT_MS / 1000.0); cJSON_AddItemToObject(sp, "timeout", t); }
+#endif
+	cJSON *set = mkreq("set", 7, sp);
+	scn_build_end();
+	__CPROVER_assume(dispatch(&O, add) == 0);
+	reset_log();
+	CHECK(dispatch(&A, set) == 0, "C03.set_keeps_caller_connection");
+	CHECK(timers_alive() == 1 && TM[0].armed, "C14.deadline_timer_armed");
+#if REQUEST_TIMEOUT_MS
+	CHECK(TM[0].ns == (uint64_t)REQUEST_TIMEOUT_MS * 1000000ull, "C14.request_timeout_takes_precedence");
+#elif ELEMENT_TIMEOUT
+	CHECK(TM[0].ns == 2000000000ull, "C14.element_timeout_used_when_request_has_none");
+#else
+	CHECK(TM[0].ns == 5000000000ull, "C14.default_deadline_is_the_configured_timeout");
+#endif
+	WITNESS_END();
+}
+
 /* ================================================================== deadline: timeout answer once, late reply discarded */
 void harness_timeout(void)
 {
